@@ -138,6 +138,8 @@ mod ref_cnt;
 #[cfg(feature = "serde")]
 mod serde;
 pub mod strategy;
+#[cfg(arc_swap_verif)]
+pub mod verif;
 #[cfg(feature = "weak")]
 mod weak;
 
@@ -147,7 +149,12 @@ use core::marker::PhantomData;
 use core::mem;
 use core::ops::Deref;
 use core::ptr;
+#[cfg(not(arc_swap_verif))]
 use core::sync::atomic::{AtomicPtr, Ordering};
+#[cfg(arc_swap_verif)]
+use crate::verif::AtomicPtr;
+#[cfg(arc_swap_verif)]
+use core::sync::atomic::Ordering;
 
 use alloc::sync::Arc;
 
@@ -682,6 +689,15 @@ impl<T: RefCnt, S: Strategy<T>> ArcSwapAny<T, S> {
 ///
 /// This is a type alias only. Most of its methods are described on
 /// [`ArcSwapAny`](struct.ArcSwapAny.html).
+#[cfg(arc_swap_verif)]
+impl<T: RefCnt, S: Strategy<T>> ArcSwapAny<T, S> {
+    /// Address of the atomic holding the pointer (for verification harnesses).
+    #[doc(hidden)]
+    pub fn verif_storage_addr(&self) -> usize {
+        &self.ptr as *const _ as usize
+    }
+}
+
 pub type ArcSwap<T> = ArcSwapAny<Arc<T>>;
 
 impl<T, S: Strategy<Arc<T>>> ArcSwapAny<Arc<T>, S> {
